@@ -48,6 +48,9 @@ pub struct Recorder {
     pub name_pool: std::collections::BTreeSet<String>,
     /// names that must keep their identity (used as dependency or duplicated)
     pub sensitive: std::collections::BTreeSet<String>,
+    /// a pool attached to the top-level builder BEFORE anything is registered (otherwise the caller attaches one at the end)
+    #[cfg(feature = "parallel")]
+    pub early_pool: Option<std::sync::Arc<rayon::ThreadPool>>,
     pub toggle_counter: usize,
 }
 
@@ -133,6 +136,8 @@ impl Recorder {
             print_every,
             name_pool: Default::default(),
             sensitive: Default::default(),
+            #[cfg(feature = "parallel")]
+            early_pool: None,
             toggle_counter: 0,
         }
     }
@@ -274,6 +279,12 @@ impl Recorder {
         self.next_builder += 1;
         self.events.push(json!({"ev":"new","b":bidx}));
         let mut b: DispatcherBuilder<'static, 'static> = DispatcherBuilder::new();
+        #[cfg(feature = "parallel")]
+        if bidx == 1 {
+            if let Some(p) = self.early_pool.clone() {
+                b.add_pool(p);
+            }
+        }
         if self.variant.extra_barriers && self.rng.gen_bool(0.5) {
             // leading barrier: must change nothing (C03)
             b.add_barrier();
